@@ -166,6 +166,12 @@ def rule_layout_names(ctx: Ctx, rid="C14.NAMES-BOUND"):
     ctx.rep.floor("programs compared across layouts", n, 90)
 
 
+def _evaluator_postpones_annotations(ctx: Ctx) -> bool:
+    ev = ctx.mod("experiment_evaluator.py")
+    return any(isinstance(st, ast.ImportFrom) and st.module == "__future__" and any(a.name == "annotations" for a in st.names)
+               for st in ev.tree.body)
+
+
 def rule_names_bound(ctx: Ctx, rid="C07.NAMES-BOUND", layouts=None):
     """Every name the generated functions read is a parameter, a closure variable of the
     enclosing generated function, an import of the header, or a builtin."""
@@ -180,8 +186,11 @@ def rule_names_bound(ctx: Ctx, rid="C07.NAMES-BOUND", layouts=None):
         b = set(dir(builtins)) - dsl
         main_params = set(ir["main_params"]) | ({ir["main_kwargs"]} if ir["main_kwargs"] else set())
         helper_scope = imported | top | b | (main_params if ir["helper_nested"] else set())
-        missing_h = ir["helper_free"] - helper_scope
-        missing_m = ir["main_free"] - (imported | top | b)
+        # the evaluator compiles the text itself: compile() inherits `from __future__ import annotations` of the evaluator's module,
+        # and the annotations of the generated functions are then never evaluated
+        sfx = "_postponed" if (not o.expose and _evaluator_postpones_annotations(ctx)) else ""
+        missing_h = ir["helper_free" + sfx] - helper_scope
+        missing_m = ir["main_free" + sfx] - (imported | top | b)
         con = f"{GEN}:PythonCodeGen.generate <- {_label(o)}"
         if missing_h or missing_m:
             ctx.rep.bad(rid, con, f"generated code reads names that nothing binds: helper {sorted(missing_h)}, "
@@ -986,7 +995,17 @@ def rule_ident_positions(ctx: Ctx, rid="C07.IDENT-POSITIONS"):
         if ir is None:
             continue
         idents = {h.sym.name for h in o.holes() if h.sym.kind == "ident"} | _prog_ident_names(o.prog)
+        # the annotations of a module-level function are evaluated at module level, where no field is bound: a field of the same
+        # name shadows nothing there
+        outer_ann = set()
+        for st in o.tree.body:
+            if isinstance(st, ast.FunctionDef):
+                anns = [a.annotation for a in st.args.posonlyargs + st.args.args + st.args.kwonlyargs + [st.args.vararg, st.args.kwarg]
+                        if a is not None and a.annotation is not None] + ([st.returns] if st.returns is not None else [])
+                outer_ann |= {id(n) for e in anns for n in ast.walk(e)}
         for node in ast.walk(o.tree):
+            if id(node) in outer_ann:
+                continue
             if isinstance(node, ast.FunctionDef):
                 (sinks if node.name in idents else skeleton).add(("def-name", node.name) if node.name in idents else node.name)
             elif isinstance(node, ast.arg):
